@@ -102,4 +102,19 @@ PROPS = {
         "thorough": {"cases": 6000, "shards": 16, "shrinktime": "120s", "timeout_s": 3000},
         "assumptions": RUN_ASSUME,
     },
+    "C11": {
+        "test": "TestC11", "binary": "plain", "level": "exploration",
+        "rule": "cases drive engine.New/Parse/Run on real files in a scratch directory: (a) structural corruption of generated valid workflows "
+                "(main or sub-workflow file): a generated node position (key or value) x one of 63 operations (59 replacement shapes incl. "
+                "non-scalar keys, anchors/aliases, merge keys, every engine tag on every node kind, odd expressions; delete; duplicate; 200-deep "
+                "nest); (b) 1-4 byte-level mutations of a valid workflow; (c) random text over a YAML-ish alphabet; (d) file trees of foreach "
+                "references (chains, shared, missing, self, mutual, nested directories, .., absolute, empty, garbage, non-string kind/workflow) with "
+                "the expected verdict; (e) corrupted / random input documents. oracle = Parse and Run return (value or error) within the watchdog, no "
+                "panic, no process death; file trees: accepted iff every referenced file exists and parses. non-trivial = the corrupted text differs "
+                "from its seed / is non-empty",
+        "quick": {"cases": 2400, "shards": 12, "shrinktime": "30s"},
+        "thorough": {"cases": 60000, "shards": 16, "shrinktime": "120s", "timeout_s": 3000},
+        "assumptions": ["the scripted deployer replaces engine.DefaultDeployerRegistry; container deployers are out of scope",
+                        "native go fuzzing of the same entry point is run separately (fuzz/), see DESIGN.md"],
+    },
 }
